@@ -310,6 +310,18 @@ def run_float(kind, scales, acc, only=None, tier='quick', part=None):
             acc.violation('points_depends_on_earlier_call', {'kind': kind}, dict(case, q='points_buffer_reuse'),
                           observed=[first[0], second[0], third[0], repr(second[1])[:200]],
                           expected='values at the CURRENT contents of the array')
+        # the parameter as an ndarray (every order of derivative, point): element-wise the scalar answers
+        tarr = np.array(ts, dtype=float)
+        acc.case(dict(case, q='ndarray_t'), cls='float/%s/ndarray_t' % kind)
+        for k in range(0, n + 2):
+            if kind == 'L' and pts[0] == pts[-1] and k > 0:
+                continue
+            rv = outcome(lambda: np.asarray(seg.point(tarr) if k == 0 else seg.derivative(tarr, k)) + np.zeros(len(ts)))
+            want_v = [complex(ref_point(ex, F(t))) if k == 0 else complex(ref_derivative(ex, F(t), k)) for t in ts]
+            bnd_v = 512 * EPS * mag * max(1.0, max(abs(t) for t in ts)) ** n + 1e-300
+            if rv[0] != 'ok' or len(rv[1]) != len(ts) or not all(abs(complex(a) - b) <= bnd_v for a, b in zip(rv[1], want_v)):
+                acc.violation('vector_parameter_differs_from_scalar', {'kind': kind, 'order': k}, dict(case, q='ndarray_t', order=k),
+                              observed=repr(rv)[:300], expected=repr(want_v)[:200])
         for ti, t in enumerate(ts):
             tq = F(t)
             truth = complex(ref_point(ex, tq))
